@@ -581,8 +581,9 @@ func handlerArg(c pcell, ev LabEvent) json.RawMessage {
 }
 
 func jsonEqual(a, b json.RawMessage) bool {
-	var x, y any
-	if json.Unmarshal(a, &x) != nil || json.Unmarshal(b, &y) != nil {
+	x, err1 := decodeExact(a)
+	y, err2 := decodeExact(b)
+	if err1 != nil || err2 != nil {
 		return false
 	}
 	xb, _ := json.Marshal(x)
